@@ -3,8 +3,8 @@ package c10
 // (3b) Wiring: the same monitors on hosts built by libp2p.New with its DEFAULT transports, security and
 // muxers, so that the way the constructor hands the gater to the upgrader and to the QUIC, WebTransport
 // and WebRTC transports is part of what runs ("for every transport ... each transport's own gating call
-// sites"). A fixed script: every transport, both directions, first without rules (every admitted
-// connection must have passed every gate), then with the remote peer blocked, then with subnets that
+// sites"). A fixed script: every transport, both directions, first without rules (consulted gates are
+// counted per admitted connection), then with the remote peer blocked, then with subnets that
 // cover every loopback source address.
 
 import (
@@ -97,7 +97,7 @@ func hostWiring(r *run.R) {
 		}
 	}
 	rule := func(o op) { sc.Steps = append(sc.Steps, swStep{Kind: "rule", Host: 0, Op: &o}) }
-	attempts() // no rules: every admitted connection must have passed all gates of its transport
+	attempts() // no rules: everything admitted (consulted call sites are counted)
 	rule(op{Kind: opBlockPeer, Peer: 1})
 	attempts() // peer blocked: PeerDial outbound, Secured inbound on every transport
 	rule(op{Kind: opUnblockPeer, Peer: 1})
